@@ -5,7 +5,7 @@
 From Coq Require Import List String QArith.
 From Coq Require Import Floats.PrimFloat.
 From PAFC01 Require Import ModelTree.
-From PAFC12 Require Import Gen Model Proofs Proofs2 Proofs3 Proofs4 Proofs5 Proofs6 Proofs7 Proofs8 Proofs9 Proofs10 Proofs11.
+From PAFC12 Require Import Gen Model Proofs Proofs2 Proofs3 Proofs4 Proofs5 Proofs6 Proofs7 Proofs8 Proofs9 Proofs10 Proofs11 Proofs12.
 Import ListNotations.
 
 (* STRUCTURE, every mode.  The new model has exactly the places (paths) of the old one, and the place that held
@@ -30,35 +30,35 @@ Proof. exact rebuild_order. Qed.
    of combined / free-parameter analyses are copies made by `subsamples`.  From a summary whose path cache is empty or
    that of its own model, every summary reached by reads and by making children (any order, any depth) is again so. *)
 From PAFC12 Require Import Session.
-Theorem C12_summary_cache_coherent : forall (V : Type) (bin : binop -> V -> V -> V) (resets : bool) (ops : list (op V))
+Theorem C12_summary_cache_coherent : forall (V : Type) (bin : binop -> V -> V -> V) (un : unop -> V -> V) (resets : bool) (ops : list (op V))
     (s s' : summary V),
-  coherent V s -> run V bin resets ops s = Some s' -> coherent V s'.
+  coherent V s -> run V bin un resets ops s = Some s' -> coherent V s'.
 Proof. exact run_coherent. Qed.
 
 (* whatever was read from the parent before its child is made and from the child afterwards, the child answers with the
    best-fit vector and the prior means of the child made first thing from the untouched parent: prior passing from a
    child result does not depend on the history of the result objects *)
-Theorem C12_summary_history_irrelevant : forall (V : Type) (bin : binop -> V -> V -> V) (resets : bool) (s : summary V)
+Theorem C12_summary_history_irrelevant : forall (V : Type) (bin : binop -> V -> V -> V) (un : unop -> V -> V) (resets : bool) (s : summary V)
     (before : list (op V)) (child : node V) (after : list (op V)) (c c0 : summary V),
   coherent V s -> Forall (is_read V) before -> Forall (is_read V) after ->
-  run V bin resets (before ++ OSub V child :: after) s = Some c -> subsamples V resets s child = Some c0 ->
+  run V bin un resets (before ++ OSub V child :: after) s = Some c -> subsamples V resets s child = Some c0 ->
   sm_model V c = child /\ max_vector V c = max_vector V c0 /\ means_vector V c = means_vector V c0.
 Proof. exact history_irrelevant. Qed.
 
 (* the child's instance is the child model at the child's own vector (full, for the code since 4da3fbc: `subsamples`
    resets `_instance`): whatever was done with the parent before - instance reads included - and read from the child
    afterwards.  Before the repair the copy kept the parent's instance: legacy witness below. *)
-Theorem C12_child_instance_own : forall (V : Type) (bin : binop -> V -> V -> V) (s : summary V)
+Theorem C12_child_instance_own : forall (V : Type) (bin : binop -> V -> V -> V) (un : unop -> V -> V) (s : summary V)
     (before : list (op V)) (child : node V) (after : list (op V)) (c : summary V),
-  Forall (is_read V) after -> run V bin true (before ++ OSub V child :: after) s = Some c ->
-  instance_value V bin c = option_map (inst_from_vector V bin child) (max_vector V c) /\ sm_model V c = child.
-Proof. exact (fun V bin => child_instance_own V bin true eq_refl). Qed.
+  Forall (is_read V) after -> run V bin un true (before ++ OSub V child :: after) s = Some c ->
+  instance_value V bin un c = option_map (inst_from_vector V bin un child) (max_vector V c) /\ sm_model V c = child.
+Proof. exact (fun V bin un => child_instance_own V bin un true eq_refl). Qed.
 
 Theorem C12_child_instance_own_legacy_refuted :
   exists (s : summary nat) (before : list (op nat)) (child : node nat) (after : list (op nat)) (c : summary nat),
     coherent nat s /\ sm_inst nat s = None /\ Forall (is_read nat) before /\ Forall (is_read nat) after /\
-    run nat wit_bin false (before ++ OSub nat child :: after) s = Some c /\
-    instance_value nat wit_bin c <> option_map (inst_from_vector nat wit_bin child) (max_vector nat c).
+    run nat wit_bin wit_un false (before ++ OSub nat child :: after) s = Some c /\
+    instance_value nat wit_bin wit_un c <> option_map (inst_from_vector nat wit_bin wit_un child) (max_vector nat c).
 Proof. exact child_instance_legacy_refuted. Qed.
 Print Assumptions C12_summary_cache_coherent.
 Print Assumptions C12_summary_history_irrelevant.
@@ -75,11 +75,11 @@ Proof. exact rebuild_sharing. Qed.
 
 (* FIXED VALUES, CLASSES, TUPLES, DERIVED VALUES (full): the new model builds, from corresponding arguments, the
    instance the old model builds. *)
-Theorem C12_instance : forall (V : Type) (bin : binop -> V -> V -> V) (sigma : nat -> option nat)
+Theorem C12_instance : forall (V : Type) (bin : binop -> V -> V -> V) (un : unop -> V -> V) (sigma : nat -> option nat)
     (args args' : nat -> option V) (n : node V),
   wf V n -> forall n', rebuild V sigma n = Some n' ->
   (forall q, In q (prior_ids V n) -> args' (sd sigma q) = args q) ->
-  inst V bin args' n' = inst V bin args n.
+  inst V bin un args' n' = inst V bin un args n.
 Proof. exact rebuild_inst. Qed.
 
 (* MEANS / BOUNDED MODES keep ids: every query of the new model equals that of the old one *)
@@ -89,10 +89,10 @@ Theorem C12_structure_kept : forall (V : Type) (L : leaves V) cfg specs (md : mo
   ordered_ids V n' = ordered_ids V n /\ prior_count V n' = prior_count V n.
 Proof. exact l_structure_kept. Qed.
 
-Theorem C12_instance_kept : forall (V : Type) (L : leaves V) cfg specs (bin : binop -> V -> V -> V) (md : mode V)
+Theorem C12_instance_kept : forall (V : Type) (L : leaves V) cfg specs (bin : binop -> V -> V -> V) (un : unop -> V -> V) (md : mode V)
     (n n' : node V) sp (args : nat -> option V),
   wf V n -> keeps_ids V md -> lpass V L cfg specs md n = Ok (n', sp) ->
-  inst V bin args n' = inst V bin args n.
+  inst V bin un args n' = inst V bin un args n.
 Proof. exact l_instance_kept. Qed.
 
 (* OWN VALUE (the pairing itself is zip_derive's definition; the content is that the priors REPORTED for the new model,
@@ -142,11 +142,42 @@ Theorem C12_width_nonneg : forall (V : Type) (L : leaves V) cfg specs (a r : opt
     s_fam V s = FGaussian /\ l_neg_sigma V L (s_sigma V s) = false /\ l_bad_limits V L (s_lo V s) (s_hi V s) = false.
 Proof. exact l_width_nonneg. Qed.
 
+(* Guard `cls_ok` of the theorems about mapper_from_prior_means (ext-tree): every unary arithmetic prior (-x, abs(x)) of the
+   model has a class for the configuration lookup.  In the code as it is (Gen.modified_prior_cls_falls_back = false)
+   ModifiedPrior.cls is self.prior.cls, which does not exist when the operand is a Prior: the call raises AttributeError
+   (C12_means_unary_over_prior_refuted, finding modified-prior-cls).  Once the class falls back to float the guard holds
+   for every model (C12_cls_ok_repaired) and the theorems are the full statements again. *)
+Theorem C12_cls_ok_repaired : modified_prior_cls_falls_back = true -> forall (V : Type) (n : node V), cls_ok V n.
+Proof. exact (fun R V n => cls_ok_repaired V R n). Qed.
+
+Theorem C12_means_unary_over_prior_refuted :
+  modified_prior_cls_falls_back = false ->
+  exists (n : node Q) specs means,
+    wf Q n /\ is_pm Q n = true /\ specs_cover Q specs n /\
+    qpass (-1000) 1000 [] specs (MMeans (Some 1) None false means) n = Exc EAttr.
+Proof. exact means_unary_over_prior_refuted. Qed.
+
+(* the unary node under the recursive rebuild: operator and attribute name kept, the operand rebuilt, its paths the
+   operand's paths behind the attribute name with every prior replaced by the one given for it *)
+Theorem C12_unary_rebuild : forall (V : Type) (sigma : nat -> option nat) (o : unop) (nm : string) (c : node V),
+  rebuild V sigma (NUn o nm c) = option_map (NUn o nm) (rebuild V sigma c) /\
+  (forall n', wf V c -> rebuild V sigma (NUn o nm c) = Some n' ->
+     exists c', n' = NUn o nm c' /\ walk V c' = ren_walk sigma (walk V c) /\
+                walk V n' = prefix_paths nm (ren_walk sigma (walk V c))).
+Proof. exact unary_rebuild. Qed.
+
+(* ... and fixed to the best-fit instance it becomes the number op(value) *)
+Theorem C12_unary_fixed : forall (V : Type) (bin : binop -> V -> V -> V) (un : unop -> V -> V) (vals : nat -> option V)
+    (o : unop) (nm : string) (c : node V) (a : V),
+  PAFC01.Proofs8.is_const V c = false -> inst V bin un vals c = IV a ->
+  fix_tree V bin un vals (NUn o nm c) = Some (NConst (un o a)).
+Proof. exact unary_fixed. Qed.
+
 (* SUCCESS.  Sufficient conditions for every value type: the lookup name exists, widths are not negative, limits
    are not empty *)
 Theorem C12_total_means_conditions : forall (V : Type) (L : leaves V) cfg specs (a r : option V) (nl : bool)
     (means : list V) (n : node V),
-  wf V n -> is_pm V n = true -> specs_cover V specs n -> llimits_good V L cfg specs ->
+  wf V n -> cls_ok V n -> is_pm V n = true -> specs_cover V specs n -> llimits_good V L cfg specs ->
   (prior_count V n <= List.length means)%nat ->
   (a = None \/ r = None) ->
   (forall x, a = Some x -> l_neg_sigma V L (l_abs_width V L x) = false) ->
@@ -204,7 +235,7 @@ Proof. exact config_one_place_repaired. Qed.
    for every prior of a model / collection, and the holder of a place below a Model (direct attribute or tuple member) is
    that Model, so that class and name describe one and the same place of the prior. *)
 Theorem C12_lookup_class_defined : forall (V : Type) (n : node V) (q : nat),
-  wf V n -> is_pm V n = true -> In q (prior_ids V n) -> lookup_class V q n <> None.
+  wf V n -> cls_ok V n -> is_pm V n = true -> In q (prior_ids V n) -> lookup_class V q n <> None.
 Proof. exact lookup_class_some. Qed.
 
 Theorem C12_holder_class_own : forall (V : Type) (p : path) (n : node V) cls ctor attrs k0 c0 rest,
@@ -215,19 +246,19 @@ Proof. exact holder_class_own. Qed.
 
 (* Full statement "passing succeeds for every finite inferred vector" (any sign), exact arithmetic *)
 Theorem C12_total_absolute : forall (ninf pinf : Q) cfg specs (a : Q) (nl : bool) (means : list Q) (n : node Q),
-  wf Q n -> is_pm Q n = true -> specs_cover Q specs n -> qlimits_good ninf pinf cfg specs ->
+  wf Q n -> cls_ok Q n -> is_pm Q n = true -> specs_cover Q specs n -> qlimits_good ninf pinf cfg specs ->
   (prior_count Q n <= List.length means)%nat -> 0 <= a ->
   exists n' sp, qpass ninf pinf cfg specs (MMeans (Some a) None nl means) n = Ok (n', sp).
 Proof. exact total_absolute_Q. Qed.
 
 Theorem C12_total_relative : forall (ninf pinf : Q) cfg specs (r : Q) (nl : bool) (means : list Q) (n : node Q),
-  wf Q n -> is_pm Q n = true -> specs_cover Q specs n -> qlimits_good ninf pinf cfg specs ->
+  wf Q n -> cls_ok Q n -> is_pm Q n = true -> specs_cover Q specs n -> qlimits_good ninf pinf cfg specs ->
   (prior_count Q n <= List.length means)%nat -> 0 <= r ->
   exists n' sp, qpass ninf pinf cfg specs (MMeans None (Some r) nl means) n = Ok (n', sp).
 Proof. exact total_relative_Q. Qed.
 
 Theorem C12_total_default : forall (ninf pinf : Q) cfg specs (nl : bool) (means : list Q) (n : node Q),
-  wf Q n -> is_pm Q n = true -> specs_cover Q specs n -> qlimits_good ninf pinf cfg specs ->
+  wf Q n -> cls_ok Q n -> is_pm Q n = true -> specs_cover Q specs n -> qlimits_good ninf pinf cfg specs ->
   qmodifiers_good cfg specs ->
   (prior_count Q n <= List.length means)%nat ->
   exists n' sp, qpass ninf pinf cfg specs (MMeans None None nl means) n = Ok (n', sp).
@@ -354,9 +385,9 @@ Theorem C12_replace_total : forall (V : Type) (L : leaves V) cfg specs (m : argu
 Proof. exact l_replace_total. Qed.
 
 (* COMPONENTS FIXED TO THE BEST-FIT INSTANCE: no free parameter left; every assignment builds that instance *)
-Theorem C12_fixed_instance : forall (V : Type) (bin : binop -> V -> V -> V) (vals : nat -> option V) (n : node V),
-  wf V n -> forall n', fix_tree V bin vals n = Some n' ->
-  walk V n' = [] /\ forall args', inst V bin args' n' = inst V bin vals n.
+Theorem C12_fixed_instance : forall (V : Type) (bin : binop -> V -> V -> V) (un : unop -> V -> V) (vals : nat -> option V) (n : node V),
+  wf V n -> forall n', fix_tree V bin un vals n = Some n' ->
+  walk V n' = [] /\ forall args', inst V bin un args' n' = inst V bin un vals n.
 Proof. exact fixed_instance. Qed.
 
 (* the executable instances are instances of the theorems above *)
@@ -380,5 +411,9 @@ Print Assumptions C12_holder_class_own.
 Print Assumptions C12_own_limits.
 Print Assumptions C12_own_replacement.
 Print Assumptions C12_total_limits.
+Print Assumptions C12_cls_ok_repaired.
+Print Assumptions C12_means_unary_over_prior_refuted.
+Print Assumptions C12_unary_rebuild.
+Print Assumptions C12_unary_fixed.
 Print Assumptions C12_relative_width_float.
 Print Assumptions C12_widths_not_negative_float_leaves.
